@@ -26,7 +26,8 @@ RULE = ("The product declaration-route x domain x method x strict is enumerated 
         "list equals that set and returns what a fresh copy with continuous domains (binary -> [0,1]) returns; "
         "every binary element reachable through the view has bounds (0,1).  Non-trivial = discrete variables "
         "reached through a view or a non-default method."
-        "  Also: fractional declared bounds, and models written entirely over one vector-shaped view object of the discrete container (optyx's single-vector shortcut).")
+        "  Also: fractional declared bounds, and models written entirely over one vector-shaped view object of the discrete container (optyx's single-vector shortcut)."
+        " Also (round 6): a solve that fails (the caller's callback raises inside SciPy) between two solves of the same problem.")
 BUDGET = {"quick": {"workers": 16, "per_cell": 1}, "thorough": {"workers": 16, "per_cell": 8}}
 ASSUMPTIONS = ["LP-only methods on a nonlinear model refuse the model before/independently of the domain check: such cells are discards"]
 MANIFEST = {
